@@ -55,7 +55,9 @@ Definition atomic_prefix : string := (temporary_name_prefix ++ "atomic-write")%s
 
 (* ---- the operating system (what a primitive that takes effect does) ---- *)
 
-(* openat(O_CREAT|O_EXCL, 0600): fails (EEXIST) if the name exists *)
+(* openat(O_CREAT|O_EXCL, 0600): fails (EEXIST) if the name exists; so the
+   temporary is always a FRESH name (not present in the directory, whatever
+   leftovers of earlier writes the directory holds) and it starts EMPTY *)
 Definition os_create (n : name) (d : dir) : option dir :=
   if mem n d then None else Some (set n (384, []) d).
 
@@ -123,7 +125,9 @@ Definition pre (e : list event) (r : run) : run :=
   mk (r_result r) (e ++ r_trace r) (r_dir r).
 
 (* ---- os.CreateTemp(dir, atomicWriteTemporaryNamePrefix) ----
-   The pattern has no "*", so the name is prefix ++ random. [sufs] are the
+   The pattern has no "*", so the name is prefix ++ random. A name that is
+   already present (a leftover of an interrupted earlier write, or anything
+   else) is never reused: the loop moves on to the next random value. [sufs] are the
    successive values of nextRandom(); the loop continues on EEXIST only (the Go
    loop gives up after 10000 tries: here, when the list ends). *)
 Inductive cres := CCreated (tmp : name) | CFail | CCrash.
